@@ -107,7 +107,7 @@ CHECKS = {
     },
     "C14": {
         "level": "exploration",
-        "tests": [{"name": "TestC14", "quick": 400, "thorough": 19200}, {"name": "TestC14", "quick": None, "thorough": 3200, "race": True, "max_shards": 8}],
+        "tests": [{"name": "TestC14", "quick": 600, "thorough": 19200}, {"name": "TestC14", "quick": None, "thorough": 3200, "race": True, "max_shards": 8}],
         "assumptions": [COMMON_ASSUMPTIONS[0], "whether a build really started from a recycled pool object is sampled through the verif hook just before the build (sync.Pool is per-P, so this is evidence, not control)",
                         "concurrent builders are scheduled by the Go runtime; interleavings are sampled"],
     },
